@@ -1184,3 +1184,67 @@ func (c *Ctx) OriginsThrough(v ssa.Value, depth int) []ssa.Value {
 	}
 	return out
 }
+
+// resolveParam follows a parameter of an unexported function all of whose callers are static
+// calls to the arguments at those call sites (up to three levels); any other value is returned
+// as it is. ok is false when some level has callers that are not known.
+func (c *Ctx) resolveParam(v ssa.Value, d int) ([]ssa.Value, bool) {
+	p, isP := unspill(v).(*ssa.Parameter)
+	if !isP || d > 3 || p.Parent() == nil || p.Parent().Parent() != nil {
+		return []ssa.Value{v}, true
+	}
+	fn := p.Parent()
+	sites, complete := c.staticCallers(fn)
+	if !complete || len(sites) == 0 {
+		return []ssa.Value{v}, true
+	}
+	idx := paramIndex(p)
+	var out []ssa.Value
+	for _, s := range sites {
+		call, isCall := s.Call.(*ssa.Call)
+		if !isCall || idx < 0 || idx >= len(call.Call.Args) {
+			return nil, false
+		}
+		sub, ok := c.resolveParam(call.Call.Args[idx], d+1)
+		if !ok {
+			return nil, false
+		}
+		out = append(out, sub...)
+	}
+	return out, true
+}
+
+// allResolved: v, with parameters followed to the call sites, satisfies pred everywhere.
+func (c *Ctx) allResolved(v ssa.Value, pred func(ssa.Value) bool) bool {
+	vs, ok := c.resolveParam(v, 0)
+	if !ok || len(vs) == 0 {
+		return false
+	}
+	for _, x := range vs {
+		if !pred(x) {
+			return false
+		}
+	}
+	return true
+}
+
+// onlyReachedFrom: every static caller chain of the unexported function ends in a function whose
+// name contains the given text (the callers are all known).
+func (c *Ctx) onlyReachedFrom(fn *ssa.Function, name string, d int) bool {
+	if d > 3 {
+		return false
+	}
+	sites, complete := c.staticCallers(fn)
+	if !complete || len(sites) == 0 {
+		return false
+	}
+	for _, s := range sites {
+		if strings.Contains(short(s.Fn), name) {
+			continue
+		}
+		if !c.onlyReachedFrom(s.Fn, name, d+1) {
+			return false
+		}
+	}
+	return true
+}
